@@ -152,7 +152,23 @@ class C04(Harness):
         except (TypeError, ValueError):
             return None
         ps = [p for p in sig.parameters.values() if p.name != "self"]
-        if any(p.kind in (p.VAR_POSITIONAL, p.VAR_KEYWORD) for p in ps):
+        if any(p.kind == p.VAR_POSITIONAL for p in ps):
+            return None
+        if any(p.kind == p.VAR_KEYWORD for p in ps):
+            # keyword arguments handed on to a parent constructor are constructor arguments all the same: the named
+            # parameters of the nearest base class with an explicit signature stand for them
+            own = [p for p in ps if p.kind != p.VAR_KEYWORD]
+            for base in cls.__mro__[1:]:
+                try:
+                    bps = [p for p in inspect.signature(base.__init__).parameters.values() if p.name != "self"]
+                except (TypeError, ValueError):
+                    continue
+                if base is object or any(p.kind in (p.VAR_POSITIONAL, p.VAR_KEYWORD) for p in bps):
+                    continue
+                extra = [p for p in bps if p.name not in {q.name for q in own}]
+                if extra:
+                    return own + extra
+                break
             return None
         return ps
 
